@@ -781,6 +781,17 @@ func init() {
 		}
 		return smt.UF("strconv.FormatUint", smt.Str, t, b)
 	}
+	I["strconv.ParseInt"] = func(m *Machine, fn *ssa.Function, args []Value) Value {
+		s, base, bits := strArg(args[0]), args[1].(*smt.Term), args[2].(*smt.Term)
+		if s.IsConst() && base.IsConst() && bits.IsConst() {
+			v, err := strconv.ParseInt(s.S, int(base.U64()), int(bits.U64()))
+			if err != nil {
+				return TupleV{smt.BVInt(64, v), m.newError(smt.StrC(err.Error()), nil)}
+			}
+			return TupleV{smt.BVInt(64, v), &IfaceV{}}
+		}
+		panic(unsupported("strconv.ParseInt on a symbolic string"))
+	}
 	I["bytes.Equal"] = func(m *Machine, fn *ssa.Function, args []Value) Value {
 		a, _ := m.sliceBytesTerm(args[0])
 		b, _ := m.sliceBytesTerm(args[1])
@@ -1044,6 +1055,8 @@ func init() {
 			tn = iv.T.String()
 		}
 		t := m.ufOver("json<"+tn+">", smt.Str, iv.V)
+		// bound (stated in the evidence): marshalled payloads are shorter than 60000 bytes
+		smt.AddAxiom(smt.IntLe(smt.StrLen(t), smt.IntC(60000)))
 		m.ghostJSON(t, iv)
 		return TupleV{m.bytesValue(t, -1), &IfaceV{}}
 	}
